@@ -313,6 +313,15 @@ fn gen_wand_query(rng: &mut StdRng) -> Value {
         let oc = if rng.random_bool(0.5) { "should" } else { "must" };
         return qlib::bool_json(words[..k].iter().map(|x| json!({"o":oc,"q":nfq(x)})).collect(), None);
     }
+    if rng.random_bool(0.1) {
+        // a single frequent term / a pair: the block-max bound of blocks that hold a very long document
+        let q0 = json!({"k":"term","f":"body","t":format!("b{}", rng.random_range(0..2)),"opt":"freq"});
+        if rng.random_bool(0.5) {
+            return q0;
+        }
+        let oc = if rng.random_bool(0.5) { "should" } else { "must" };
+        return qlib::bool_json(vec![json!({"o":oc,"q":q0}), json!({"o":oc,"q":b(rng)})], None);
+    }
     let n = rng.random_range(4..=6);
     let w = |x: String| json!({"k":"term","f":"body","t":x,"opt":"freq"});
     match rng.random_range(0..16) {
